@@ -323,6 +323,7 @@ def run_loop(engine, st, stmt, ctl):
     names |= {"bound!" + n for n in names if ("bound!" + n) in st.vars}
     # 1. entry
     ctl.bind_head(st)
+    st.loop_entry = (dict(st.vars), st.heap.plain())  # at_entry(e) in invariants: e in the state the loop was entered in
     for j, inv in enumerate(spec.inv):
         g = engine.eval_spec(st, inv)
         engine.oblige(st, g, f"loop {k} invariant {j} holds on entry: {inv}", "inv-entry", stmt)
